@@ -44,6 +44,11 @@ fn valid_ymd_after(year: i32, month: u32, day: u32) -> NaiveDate {
         .unwrap_or(DATE_END.date())
 }
 
+/// Substract a number of days to a date, returns `None` if the result is out of bounds.
+fn checked_sub_days(date: NaiveDate, days: i64) -> Option<NaiveDate> {
+    date.checked_sub_signed(Duration::try_days(days)?)
+}
+
 /// Find next change from iterators of "starting of an interval" to "end of an
 /// interval".
 fn next_change_from_bounds(
@@ -489,7 +494,10 @@ impl DateFilter for ds::WeekDayRange {
                         .filter(date, ctx);
                 }
 
-                let date = date - Duration::days(*offset);
+                let Some(date) = checked_sub_days(date, *offset) else {
+                    return false;
+                };
+
                 let pos_from_start = (date.day() as u8 - 1) / 7;
                 let pos_from_end = (count_days_in_month(date) - date.day() as u8) / 7;
                 let range_u8 = (*range.start() as u8)..=(*range.end() as u8);
@@ -504,8 +512,7 @@ impl DateFilter for ds::WeekDayRange {
                     ds::HolidayKind::School => &ctx.holidays.school,
                 };
 
-                let date = date - Duration::days(*offset);
-                calendar.contains(date)
+                checked_sub_days(date, *offset).is_some_and(|date| calendar.contains(date))
             }
         }
     }
@@ -521,14 +528,16 @@ impl DateFilter for ds::WeekDayRange {
                     ds::HolidayKind::School => &ctx.holidays.school,
                 };
 
-                let date_with_offset = date - Duration::days(*offset);
+                let Some(date_with_offset) = checked_sub_days(date, *offset) else {
+                    return Some(DATE_END.date());
+                };
 
                 if calendar.contains(date_with_offset) {
                     date.succ_opt()?
                 } else {
                     calendar
                         .first_after(date_with_offset)
-                        .map(|following| following + Duration::days(*offset))
+                        .and_then(|following| checked_sub_days(following, offset.checked_neg()?))
                         .unwrap_or_else(|| DATE_END.date())
                 }
             }),
